@@ -34,7 +34,12 @@ import numpy as np
 
 from .. import core
 
-CATALOGUE = {1: [1, 2, 3], 2: [4, 5], 3: [6]}          # file id -> series-name ids ; file 9 does not exist
+# file id -> series-name ids; file 9 does not exist.  Files 4 and 5 have the SAME file name at two depths (run.ts, sub/run.ts) and share a
+# series name (7): their list labels are 'run.ts/qg' and 'sub/run.ts/qg', only the full keys tell them apart.
+# Series (2,5) has min == 0.0 and series (3,6) has max == 0.0 exactly (statistics that are exactly zero must be shown as 0, not nan).
+CATALOGUE = {1: [1, 2, 3], 2: [4, 5], 3: [6], 4: [7, 8], 5: [7, 9]}
+FNAME = {1: "f1.ts", 2: "f2.ts", 3: "f3.ts", 4: "run.ts", 5: "sub/run.ts", 9: "f9.ts"}
+FID = {v: k for k, v in FNAME.items()}
 CAT_TOKEN = ";".join("%d:%s" % (f, ",".join(map(str, ns))) for f, ns in sorted(CATALOGUE.items()))
 MISSING = 9
 TWINS = [(0.0, 1_000_000_000.0), (10.0, 100.0), (20.5, 70.25)]
@@ -50,11 +55,14 @@ RULE = ("histories over {import (new / loaded / missing / same file twice / new+
 
 
 def fname(f):
-    return "f%d.ts" % f
+    return FNAME.get(f, "f%d.ts" % f)
 
 
 def sname(n):
     return "q" + chr(96 + n)
+
+
+NAMEID = {sname(n): n for ns in CATALOGUE.values() for n in ns}
 
 
 def kstr(k):
@@ -126,9 +134,14 @@ class Env:
                     om, ph, am = rng.uniform(1.6, 4.4, 24), rng.uniform(0, 2 * np.pi, 24), rng.uniform(0.2, 1.0, 24)
                     x = (am[:, None] * np.sin(om[:, None] * t[None, :] + ph[:, None])).sum(axis=0) * (0.5 + 0.1 * n) + \
                         0.15 * rng.standard_normal(t.size) + 0.3 * n
-                    db.add(TimeSeries(sname(n), t, x))
+                    x = x.astype(np.float32)          # .ts files hold single precision: the stored values are exactly these
+                    if (f, n) == (2, 5):
+                        x = x - x.min()               # min == 0.0 exactly (one sample)
+                    elif (f, n) == (3, 6):
+                        x = x - x.max()               # max == 0.0 exactly
+                    db.add(TimeSeries(sname(n), t, x.astype(float)))
+                os.makedirs(os.path.dirname(os.path.join(self.root, fname(f))), exist_ok=True)
                 db.export(os.path.join(self.root, fname(f)), names="*")
-        self.key_of_name = {sname(n): (f, n) for f, ns in CATALOGUE.items() for n in ns}
         self.allkeys = [(f, n) for f, ns in sorted(CATALOGUE.items()) for n in ns]
         self.ref = {}
         for f in CATALOGUE:
@@ -277,25 +290,40 @@ class Env:
         shutil.rmtree(self.root, ignore_errors=True)
 
     # ---- mapping of what is on screen to keys ---------------------------------------------------------------------------------------
+    def file_of_path(self, p):
+        return FID.get(os.path.relpath(p, self.root).replace(os.sep, "/"))
+
     def key_of_path(self, p):
         parent, nm = os.path.split(p)
-        b = os.path.basename(parent)
-        try:
-            return (int(b[1:-3]), self.key_of_name[nm][1]) if b.startswith("f") and b.endswith(".ts") else None
-        except (KeyError, ValueError):
-            return None
+        f = self.file_of_path(parent) if os.path.isabs(parent) else None
+        return (f, NAMEID[nm]) if (f in CATALOGUE and NAMEID.get(nm) in CATALOGUE[f]) else None
 
-    def key_of_label(self, lab):
-        k = self.key_of_name.get(lab.split("/")[-1])
-        if k is None:
-            return None
-        if "/" in lab and lab.split("/")[0] != fname(k[0]):
-            return None
-        return k
+    def key_of_ts(self, ts):
+        f = self.file_of_path(ts.parent) if getattr(ts, "parent", None) else None
+        return (f, NAMEID[ts.name]) if (f in CATALOGUE and NAMEID.get(ts.name) in CATALOGUE[f]) else None
 
-    def keys_tok(self, labels):
-        ks = [self.key_of_label(l) for l in labels]
-        return ",".join("?" if k is None else kstr(k) for k in ks) if ks else "-"
+    def cands_of_label(self, lab):
+        """keys a list / legend / table label may stand for ('qg' alone is ambiguous: files 4 and 5)"""
+        parts = str(lab).split("/")
+        n = NAMEID.get(parts[-1])
+        if n is None:
+            return []
+        if len(parts) > 1:
+            f = FID.get("/".join(parts[:-1]))
+            return [(f, n)] if f in CATALOGUE and n in CATALOGUE[f] else []
+        return [(f, n) for f in sorted(CATALOGUE) if n in CATALOGUE[f]]
+
+    def resolve(self, lab, match):
+        """(key, settings that explain the drawn numbers): among the keys the label may stand for, the one whose numbers match"""
+        ks = self.cands_of_label(lab)
+        hits = [(k, m) for k in ks for m in [match(k)] if m]
+        if len(hits) == 1:
+            return hits[0]
+        return (ks[0] if len(ks) == 1 else None), []
+
+    def ts_tok(self, container):
+        ks = [self.key_of_ts(ts) for ts in container.values()]
+        return ",".join(kstr(k) for k in ks) if ks else "-"
 
 
 # ------------------------------------------------------------------------------------------------------------------------------------
@@ -315,17 +343,17 @@ def obs_pending(env):
         if k == "I":
             ids = []
             for p in wk.args[0]:
-                b = os.path.basename(p)
-                ids.append(b[1:-3] if b.startswith("f") and b.endswith(".ts") else "?")
+                f = env.file_of_path(p)
+                ids.append("?" if f is None else str(f))
             out.append("I" + ",".join(ids))
         elif k in ("R", "G"):
             ks = [env.key_of_path(p) for p in wk.args[1]]
             out.append(k + (",".join("?" if x is None else kstr(x) for x in ks) if ks else "-"))
         elif k in ("Ct", "Cs", "Cp", "Cr"):
             mn = bool(wk.kwargs.get("minima", False))
-            out.append("%s:%s:%s:%s:%d" % (k, env.keys_tok(list(wk.args[0].keys())), _idx(TWINS, wk.args[1]), _idx(FILTS, wk.args[2]), mn))
+            out.append("%s:%s:%s:%s:%d" % (k, env.ts_tok(wk.args[0]), _idx(TWINS, wk.args[1]), _idx(FILTS, wk.args[2]), mn))
         elif k == "H":
-            out.append("H%s:%s:%s" % (env.keys_tok(list(wk.args[0].keys())), _idx(TWINS, wk.args[1]), _idx(FILTS, wk.args[2])))
+            out.append("H%s:%s:%s" % (env.ts_tok(wk.args[0]), _idx(TWINS, wk.args[1]), _idx(FILTS, wk.args[2])))
         else:
             out.append("?")
     return ";".join(out) if out else "-"
@@ -355,15 +383,18 @@ def _groups(lines):
     return gs, bad
 
 
+def _ktok(keys):
+    return ",".join(kstr(k) for k in keys) if keys else "-"
+
+
 def obs_trace(env):
     gs, bad = _groups(env.win.history_axes.get_lines())
     if not gs and not bad:
         return "-"
-    cands = []
+    keys, cands = [], []
     for lab, main, comp in gs:
-        key = env.key_of_label(lab)
-        c = []
-        if key is not None:
+        def match(key):
+            c = []
             for tw, fl in itertools.product(range(len(TWINS)), range(len(FILTS))):
                 r = env.lib("trace", key, tw, fl)
                 if close(main.get_xdata(), r["t"]) and close(main.get_ydata(), r["x"]):
@@ -373,43 +404,52 @@ def obs_trace(env):
                         c.append((tw, fl, 1))
                     elif close(comp.get_xdata(), r["tmin"]) and close(comp.get_ydata(), r["xmin"]):
                         c.append((tw, fl, 2))
+            return c
+        k, c = env.resolve(lab, match)
+        keys.append(k)
         cands.append(c)
-    return env.keys_tok([g[0] for g in gs]) + ":" + ("?" if bad else _settle(cands))
+    return _ktok(keys) + ":" + ("?" if bad else _settle(cands))
 
 
 def obs_spectrum(env):
     gs, bad = _groups(env.win.spectrum_axes.get_lines())
     if not gs and not bad:
         return "-"
-    cands = []
+    keys, cands = [], []
     for lab, main, comp in gs:
-        key = env.key_of_label(lab)
-        c = []
-        if key is not None and comp is None:
-            for tw, fl in itertools.product(range(len(TWINS)), range(len(FILTS))):
-                f, s = env.lib("psd", key, tw, fl)
-                if close(main.get_xdata(), f) and close(main.get_ydata(), s):
-                    c.append((tw, fl, 0))
+        def match(key):
+            c = []
+            if comp is None:
+                for tw, fl in itertools.product(range(len(TWINS)), range(len(FILTS))):
+                    f, sp = env.lib("psd", key, tw, fl)
+                    if close(main.get_xdata(), f) and close(main.get_ydata(), sp):
+                        c.append((tw, fl, 0))
+            return c
+        k, c = env.resolve(lab, match)
+        keys.append(k)
         cands.append(c)
-    return env.keys_tok([g[0] for g in gs]) + ":" + ("?" if bad else _settle(cands))
+    return _ktok(keys) + ":" + ("?" if bad else _settle(cands))
 
 
 def obs_weibull(env):
     gs, bad = _groups(env.win.weibull_axes.get_lines())
     if not gs and not bad:
         return "-"
-    cands = []
+    keys, cands = [], []
     for lab, main, comp in gs:
-        key = env.key_of_label(lab)
-        c = []
-        if key is not None and comp is not None:
-            for tw, fl, mn in itertools.product(range(len(TWINS)), range(len(FILTS)), (False, True)):
-                r = env.lib("stats", key, tw, fl, mn)
-                if close(main.get_xdata(), r["wb_x"]) and close(main.get_ydata(), r["wb_y"]) and \
-                        close(comp.get_xdata(), r["wb_q"]) and close(comp.get_ydata(), r["wb_p"]):
-                    c.append((tw, fl, int(mn)))
+        def match(key):
+            c = []
+            if comp is not None:
+                for tw, fl, mn in itertools.product(range(len(TWINS)), range(len(FILTS)), (False, True)):
+                    r = env.lib("stats", key, tw, fl, mn)
+                    if close(main.get_xdata(), r["wb_x"]) and close(main.get_ydata(), r["wb_y"]) and \
+                            close(comp.get_xdata(), r["wb_q"]) and close(comp.get_ydata(), r["wb_p"]):
+                        c.append((tw, fl, int(mn)))
+            return c
+        k, c = env.resolve(lab, match)
+        keys.append(k)
         cands.append(c)
-    return env.keys_tok([g[0] for g in gs]) + ":" + ("?" if bad else _settle(cands))
+    return _ktok(keys) + ":" + ("?" if bad else _settle(cands))
 
 
 def obs_cycles(env):
@@ -417,39 +457,57 @@ def obs_cycles(env):
     cs = [c for c in ax.containers if hasattr(c, "patches")]
     if not cs and not ax.get_lines():
         return "-"
-    cands = []
+    keys, cands = [], []
     for bc in cs:
-        key = env.key_of_label(str(bc.get_label()))
-        c = []
-        if key is not None:
-            h = [p.get_height() for p in bc.patches]
-            x = [p.get_x() + 0.5 * p.get_width() for p in bc.patches]
+        h = [p.get_height() for p in bc.patches]
+        x = [p.get_x() + 0.5 * p.get_width() for p in bc.patches]
+
+        def match(key):
+            c = []
             for tw, fl in itertools.product(range(len(TWINS)), range(len(FILTS))):
                 r, n = env.lib("rfc", key, tw, fl)
                 if close(h, n) and close(x, r):
                     c.append((tw, fl, 0))
+            return c
+        k, c = env.resolve(str(bc.get_label()), match)
+        keys.append(k)
         cands.append(c)
-    return env.keys_tok([str(bc.get_label()) for bc in cs]) + ":" + ("?" if ax.get_lines() else _settle(cands))
+    return _ktok(keys) + ":" + ("?" if ax.get_lines() else _settle(cands))
+
+
+def table_rows(env):
+    """[(label, [cell texts])] of the rows of the statistics table that hold a name"""
+    tb = env.win.stats_table
+    ncol = len(env.gui.STATS_ORDER)
+    out = []
+    for r in range(tb.rowCount()):
+        it = tb.item(r, 0)
+        if it is not None:
+            out.append((it.text(), [(tb.item(r, c).text().strip() if tb.item(r, c) is not None else None) for c in range(1, ncol)]))
+    return out
 
 
 def obs_table(env):
-    tb = env.win.stats_table
     rows = []
-    ncol = len(env.gui.STATS_ORDER)
-    for r in range(tb.rowCount()):
-        it = tb.item(r, 0)
-        if it is None:
-            continue
-        key = env.key_of_label(it.text())
-        cells = [(tb.item(r, c).text().strip() if tb.item(r, c) is not None else None) for c in range(1, ncol)]
-        tok = "?"
-        if key is not None:
-            m = [(tw, fl, mn) for tw, fl, mn in itertools.product(range(len(TWINS)), range(len(FILTS)), (False, True))
-                 if env.lib("stats", key, tw, fl, mn)["cells"] == cells]
-            if len(m) == 1:
-                tok = "%d:%d:%d" % (m[0][0], m[0][1], int(m[0][2]))
-        rows.append(("?" if key is None else kstr(key)) + ":" + tok)
+    for lab, cells in table_rows(env):
+        def match(key):
+            return [(tw, fl, int(mn)) for tw, fl, mn in itertools.product(range(len(TWINS)), range(len(FILTS)), (False, True))
+                    if env.lib("stats", key, tw, fl, mn)["cells"] == cells]
+        k, m = env.resolve(lab, match)
+        rows.append(kstr(k) + ":" + ("%d:%d:%d" % m[0] if len(m) == 1 else "?"))
     return ",".join(rows) if rows else "-"
+
+
+def cell_differences(env, lab, cells):
+    """for a table row that equals no library result: the closest (key, settings) and the cells that differ from it"""
+    best = None
+    for key in env.cands_of_label(lab):
+        for tw, fl, mn in itertools.product(range(len(TWINS)), range(len(FILTS)), (False, True)):
+            ref = env.lib("stats", key, tw, fl, mn)["cells"]
+            diff = [(nm, e, o) for nm, e, o in zip(env.gui.STATS_ORDER[1:], ref, cells) if e != o]
+            if best is None or len(diff) < len(best[1]):
+                best = ((key, tw, fl, int(mn)), diff)
+    return best
 
 
 def obs_tabs(env):
@@ -485,9 +543,11 @@ def obs_rows(env):
     for i in range(m.rowCount()):
         it = m.item(i)
         txt = it.text()
-        k = env.key_of_label(txt)
-        f = ("%d" % k[0]) if (k is not None and "/" in txt) else "-"
-        out.append("%s.%s%s" % (f, "?" if k is None else k[1], "+" if it.checkState() != Qt.Unchecked else "-"))
+        parts = txt.split("/")
+        n = NAMEID.get(parts[-1])
+        f = FID.get("/".join(parts[:-1])) if len(parts) > 1 else None
+        out.append("%s.%s%s" % ("-" if len(parts) == 1 else ("?" if f is None else f), "?" if n is None else n,
+                                "+" if it.checkState() != Qt.Unchecked else "-"))
     return ",".join(out) if out else "-"
 
 
@@ -521,8 +581,9 @@ def parse_digest(tok):
 # ------------------------------------------------------------------------------------------------------------------------------------
 # the specification, tracked from what the user sees and does
 # ------------------------------------------------------------------------------------------------------------------------------------
-def visible_ticked(env):
-    """keys of the ticked rows shown in the list view (read through the view's model, as the user sees it)"""
+def visible_ticked(env, loaded=None):
+    """keys of the ticked rows shown in the list view (read through the view's model, as the user sees it); a bare series name that
+    exists on several files belongs to the file the user has loaded (`loaded`: the harness' own record of successful imports)"""
     from qtpy.QtCore import Qt
     pm = env.win.db_proxy_model
     out = []
@@ -531,7 +592,10 @@ def visible_ticked(env):
         state = pm.data(ix, Qt.CheckStateRole)
         state = getattr(state, "value", state)
         if int(state) != 0:
-            out.append(env.key_of_label(pm.data(ix)))
+            ks = env.cands_of_label(pm.data(ix))
+            if len(ks) > 1 and loaded is not None:
+                ks = [k for k in ks if k[0] in loaded]
+            out.append(ks[0] if len(ks) == 1 else None)
     return out
 
 
@@ -574,6 +638,7 @@ class Runner:
         self.fails = []                          # (oracle, expected, observed, extra)
         self.shape = dict(overlap=False, late_setting=False, clear_busy=False, requests=[], late_values=[])
         self.displays_done = 0
+        self.loaded = set()                      # files the user has imported successfully since the last clear (harness' own record)
 
     busy = property(lambda self: any(wk._kind in DISP for wk in self.env.pool.q))
 
@@ -589,6 +654,7 @@ class Runner:
             self.shape["clear_busy"] |= self.busy
             w.on_clear()
             self.rp = self.rt = None
+            self.loaded = set()
         elif op == "chk":
             from qtpy.QtCore import Qt
             pm = w.db_proxy_model
@@ -603,7 +669,7 @@ class Runner:
         elif op == "pat":
             w.db_view_filter_pattern.setText("" if p[1] == "-" else (fname(int(p[1][1:])) if p[1][0] == "f" else sname(int(p[1][1:]))))
         elif op == "dsp":
-            sel = visible_ticked(env)
+            sel = visible_ticked(env, self.loaded)
             req = (sel, tuple(self.ui))
             self.rt = req
             self.shape["overlap"] |= self.busy        # also a refused request (nothing ticked) resets the table
@@ -644,11 +710,13 @@ class Runner:
 
     def import_oracle(self, wk, before):
         env = self.env
-        ids = [int(os.path.basename(p)[1:-3]) for p in wk.args[0]]
+        ids = [env.file_of_path(p) for p in wk.args[0]]
         new = [(f, n) for f in ids for n in CATALOGUE.get(f, [])]
         had = before[0].split(",") if before[0] != "-" else []
         ok = all(f in CATALOGUE for f in ids) and len(set(new)) == len(new) and not any(kstr(k) in had for k in new)
         after = (obs_db(env), obs_rows(env))
+        if ok:
+            self.loaded |= set(ids)
         if not ok:
             if after != before:
                 self.fails.append(("O2 a failed import (file already loaded / unreadable) changes neither database nor list", "db=%s rows=%s" % before,
@@ -667,6 +735,16 @@ class Runner:
         if w.db_status.text() != "%d time series in database" % w.db.n:
             self.fails.append(("O1 when idle the status bar shows the size of the database", "%d time series in database" % w.db.n,
                                w.db_status.text(), dict(view="status")))
+        if "?" in o["tb"]:
+            for lab, cells in table_rows(env):
+                if not any(env.lib("stats", k, tw, fl, mn)["cells"] == cells for k in env.cands_of_label(lab)
+                           for tw, fl, mn in itertools.product(range(len(TWINS)), range(len(FILTS)), (False, True))):
+                    best = cell_differences(env, lab, cells)
+                    if best is not None:
+                        (key, tw, fl, mn), diff = best
+                        self.fails.append(("O3 every cell of the statistics table is the number the library returns (nan only where the library returns nan)",
+                                           {nm: e for nm, e, _ in diff}, {nm: ob for nm, _, ob in diff},
+                                           dict(view="tb-cell", row=lab, closest="%s:%d:%d:%d" % (kstr(key), tw, fl, mn))))
         sv = spec_views(self.rp, self.rt)
         for v in VIEWS:
             if o[v] != sv[v]:
@@ -823,6 +901,13 @@ FIXED = [
     # Gumbel plot: refused with one series, new tab with two, cleared in between, settings read late
     ["imp:1,2", "cmp:0", "chk:0:1", "gum", "chk:3:1", "chk:4:1", "gum", "tw:1", "cmp:0", "fl:1", "cmp:0", "gum", "cmp:0", "clr", "cmp:0", "dsp"],
     ["imp:1", "cmp:0", "all", "dsp", "gum", "cmp:1", "cmp:0", "cmp:0", "cmp:0", "cmp:0", "cmp:0", "cmp:0"],
+    # the same file name at two depths (run.ts, sub/run.ts) with the same series name: one ticked row = one series (full keys, not labels)
+    ["imp:4,5", "cmp:0", "chk:0:1", "dsp", "cmp:0", "cmp:0", "cmp:0", "cmp:0", "cmp:0", "non", "chk:2:1", "chk:3:1", "mn:1", "dsp", "cmp:0", "cmp:3",
+     "cmp:2", "cmp:1", "cmp:0", "all", "gum", "cmp:0", "cmp:0"],
+    ["imp:5", "cmp:0", "chk:0:1", "dsp", "imp:4,1", "cmp:1", "cmp:0", "cmp:0", "cmp:0", "cmp:0", "cmp:0", "pat:n7", "all", "pat:-", "dsp", "cmp:0", "cmp:0",
+     "cmp:0", "cmp:0", "cmp:0"],
+    # statistics that are exactly zero (min of series 2.5, max of series 3.6) are shown as 0
+    ["imp:2,3", "cmp:0", "all", "dsp", "cmp:0", "cmp:0", "cmp:0", "cmp:0", "cmp:0", "mn:1", "dsp", "cmp:0", "cmp:0", "cmp:0", "cmp:0", "cmp:0"],
     # invalid completion index, ticking a row that is not there
     ["cmp:0", "chk:0:1", "dsp", "gum", "all", "clr", "imp:3", "cmp:3", "cmp:0", "chk:4:1", "chk:0:1", "dsp", "cmp:7", "cmp:0", "cmp:2", "cmp:2", "cmp:0",
      "cmp:0"],
@@ -834,7 +919,7 @@ def random_history(run, rng, maxdisp):
     env = run.env
     loaded = set()
     style = rng.choice(["serial", "serial", "mixed", "mixed", "wild"])
-    first = rng.choice([[1], [2], [3], [1, 2], [1, 3], [2, 1, 3]])
+    first = rng.choice([[1], [2], [3], [1, 2], [1, 3], [2, 1, 3], [4, 5], [5], [5, 4, 2], [4]])
     run.do("imp:" + ",".join(map(str, first)))
     run.do("cmp:0")
     ndisp = 0
@@ -851,9 +936,9 @@ def random_history(run, rng, maxdisp):
         elif r < 0.27:
             run.do(rng.choice(["all", "non"]))
         elif r < 0.33:
-            run.do("pat:" + rng.choice(["-", "-", "f1", "f2", "f3", "n1", "n2", "n4", "n6"]))
+            run.do("pat:" + rng.choice(["-", "-", "f1", "f2", "f3", "n1", "n2", "n4", "n6", "n7", "n9"]))
         elif r < 0.55 and ndisp < maxdisp:
-            if not visible_ticked(env) and nrows and rng.random() < 0.85:
+            if not visible_ticked(env, run.loaded) and nrows and rng.random() < 0.85:
                 run.do("chk:%d:1" % rng.randrange(nrows))
             run.do("dsp")
             ndisp += 1
@@ -865,7 +950,7 @@ def random_history(run, rng, maxdisp):
         elif r < 0.84:
             run.do("clr")
         elif r < 0.97:
-            fs = rng.choice([[1], [2], [3], [1, 2], [2, 3], [3, 1], [2, 2], [MISSING], [1, MISSING]])
+            fs = rng.choice([[1], [2], [3], [1, 2], [2, 3], [3, 1], [2, 2], [MISSING], [1, MISSING], [4], [5], [4, 5], [5, 3]])
             run.do("imp:" + ",".join(map(str, fs)))
         else:
             run.do("imp")
@@ -925,7 +1010,7 @@ def run(chk):
     chk.assumptions += [
         "QThreadPool is replaced by a queue; worker.run() is called by the harness (signals delivered synchronously, in connection order)",
         "FigureCanvas.draw is a no-op (pixels are not observed; lines, bars, labels and table cells are)",
-        "files in one directory, unique plain series names; settings taken from 3 windows x 3 filters x maxima/minima x show-in-plot",
+        "files f1..f3, run.ts in one directory and sub/run.ts below it; plain series names, one of them on two files; settings taken from 3 windows x 3 filters x maxima/minima x show-in-plot",
         "a view's settings are decoded by matching drawn numbers with qats.app.funcs.calculate_* called directly on separately read series",
     ]
     chk.partial += [
@@ -982,8 +1067,8 @@ def run(chk):
                 chk.notes.append("a re-used window behaves differently from a fresh one: every history gets a new window")
                 env.always_fresh = True
         chk.sample(dict(events=FIXED[8], final={k: runs[8].digests[-1][k] for k in ("tr", "tb", "rp")}))
-        nrand = 70 if chk.quick else 350
-        budget = 30 if chk.quick else 110
+        nrand = 50 if chk.quick else 350
+        budget = 24 if chk.quick else 110
         for i in range(nrand):
             if time.time() - t0 > budget:
                 chk.notes.append("random histories stopped at %d (time budget)" % i)
